@@ -188,6 +188,8 @@ type result struct {
 	complete bool
 
 	whileBacked int // backlog stress: requests sent while >= 100 frames were queued
+
+	rounds, heldA, heldB int // cross-connection rounds
 }
 
 // playing is a session in the playing state plus what the executor needs at the end.
@@ -428,7 +430,9 @@ func TestReplayFile(t *testing.T) {
 	}
 	pl := doc.Case.Plan
 	var res *result
-	if pl.Transport == "wsp" {
+	if pl.Cross != nil {
+		res = runCross(t, pl)
+	} else if pl.Transport == "wsp" {
 		res = runWSP(t, pl)
 	} else {
 		res = runRTSP(t, pl)
